@@ -133,6 +133,7 @@ def _peer_first_message(d, mgr, store, kid, step):
     peer._store.identityKeyStore.dbConn.close()
 
 
+@ST.deterministic("c14-h_history")
 def h_history(ctx, n, prefix=()):
     d = tempfile.mkdtemp(prefix="c14_", dir=_TMP)
     try:
